@@ -926,8 +926,21 @@ fn main() {
     witnesses(&dir, &rt, &mut rec);
 
     // ---- part A stream
-    let n_v = if args.thorough { 160 } else { 22 };
-    for _ in 0..n_v { let c = gen_v(&mut rng); record_v(&dir, c, &mut rec, "generated"); }
+    // fixed cases: every kind of request at every kind of endpoint (generated and hand-written virtual RIB, physical,
+    // an index nobody serves), empty answers only, so that they run to the end on a tree where a record is fatal
+    for line in ["V|2.1|0.0,1.1|0.5.n=?;1.5.b=?;v.5.l=?;v.i.n=?;0.i.n=?;v.u.n=?;1.u.m=?;2.5.n=?;p.u.n=?;p.5.b=?;0.4.m=?;x.0.n=?",
+                 "V|1.0|0.0,0.3|0.2.l=?;p.0.n=?;0.5.n=?;x.0.n=?", "V|3.1|1.1|v.4.b=?;2.5.b=?;v.1.m=?;p.1.n=?;2.5.n=?;x.0.n=?"] {
+        record_v(&dir, VCase::parse(line).unwrap(), &mut rec, "fixed");
+    }
+    let n_v = if args.thorough { 160 } else { 20 };
+    let mut setup_failures = 0;
+    for _ in 0..n_v {
+        let c = gen_v(&mut rng);
+        // a tree whose pipelines do not come up costs 40 s per case: two in a row end the stream (they are reported)
+        if setup_failures >= 2 { rec.bump("V.skipped-after-setup-failures"); continue; }
+        let obs = record_v(&dir, c, &mut rec, "generated");
+        if obs.is_empty() { setup_failures += 1 } else { setup_failures = 0 }
+    }
 
     // ---- comparator and sort cases
     let mut jg = JGen { rng: rng.fork() };
